@@ -23,6 +23,11 @@ pub struct Program {
     /// (flat, flat) pairs of current_local_parent probes taken before a scope was opened and after
     /// it was closed on the same thread
     pub frame_pairs: Vec<(usize, usize)>,
+    /// ranges [a, b) of top-level op indices during which no collector action is placed (the
+    /// collector is held back, e.g. to keep a command ring full)
+    pub no_cycle: Vec<(usize, usize)>,
+    /// top-level op indices before which two whole collector cycles are forced
+    pub drain_points: Vec<usize>,
 }
 
 impl Program {
@@ -35,6 +40,8 @@ impl Program {
             model: Model::new(nthreads, cancelable, auto_local_base),
             str_mode,
             frame_pairs: vec![],
+            no_cycle: vec![],
+            drain_points: vec![],
         }
     }
 
@@ -210,6 +217,7 @@ struct Runner<'a> {
     cycles: usize,
     steps: usize,
     mid_cycle_ops: usize,
+    held: Vec<(usize, usize)>,
 }
 
 impl<'a> Runner<'a> {
@@ -232,6 +240,9 @@ impl<'a> Runner<'a> {
     }
 
     fn collector_actions(&mut self, ch: &mut dyn Chooser, tag: Tag, p: PosInfo) -> Result<(), EngineError> {
+        if self.held.iter().any(|(a, b)| p.top >= *a && p.top < *b) {
+            return Ok(());
+        }
         match self.mode {
             SchedMode::Placed => {
                 let n = if self.opts.no_flush { 2 } else { 3 };
@@ -292,7 +303,7 @@ pub fn run_program(
     take_hooklog();
     take_results();
     let mut rec = Recording { inner: chooser, log: vec![] };
-    let mut r = Runner { eng, mode, opts: opts.clone(), pos: vec![], cycles: 0, steps: 0, mid_cycle_ops: 0 };
+    let mut r = Runner { eng, mode, opts: opts.clone(), pos: vec![], cycles: 0, steps: 0, mid_cycle_ops: 0, held: prog.no_cycle.clone() };
     let sys_start = sys_ns();
     r.mark(PosInfo::default());
     // all threads the program uses exist before it starts
@@ -304,6 +315,14 @@ pub fn run_program(
     take_hooklog();
     for (i, (t, op)) in prog.ops.iter().enumerate() {
         let p = PosInfo { top: i, in_op: false, sends_done: 0, warmup: false };
+        if prog.drain_points.contains(&i) {
+            r.mark(p);
+            r.eng.cycle_finish()?;
+            r.eng.cycle_atomic()?;
+            r.mark(p);
+            r.eng.cycle_atomic()?;
+            r.cycles += 2;
+        }
         r.collector_actions(&mut rec, Tag::BeforeOp, p)?;
         if !r.eng.is_alive(*t) {
             if matches!(op, Op::Exit) {
